@@ -10,7 +10,7 @@ PEERT = NAMES + ["BOGUS", "MISSING"]
 VERS = [(1, 0), (2, 1), (3, 0), (3, 1), (4, 0)]
 MECHS = [b"NULL", b"PLAIN", b"CURVE", b"BOGUS", b"NULLX", b"PLAINTEXT", b"CURVE25519", b"NUL", b"ABCDEFGHIJKLMNOPQRST"]
 SIGS = ["ok", "bad0", "bad9"]
-IDS = [None, b"", b"i", b"I" * 255, b"J" * 256]
+IDS = [None, b"", b"i", b"I" * 255, b"J" * 256, b"n\x00", b"\x00"]
 FIRSTS = ["ready", "cmd", "msg"]
 EXHAUSTIVE = {"quick": False, "thorough": True}
 RULE = ("grid: 9 local types x 14 peer Socket-Type values (12 names, unknown, missing) x 5 versions x 9 mechanisms (the three known ones, names that only begin with a known one, a truncated one, a full 20-octet field) x 3 signature variants x "
